@@ -232,12 +232,42 @@ impl Engine for LiveEngine {
         } else {
             (sim, store, clients)
         };
+        // full-then-delete family (own tape): the records of one shard fill the data area exactly;
+        // one more record cannot be written (every periodic pass ends in OutOfSpace and the entry
+        // stays buffered, legitimately); then a key of the same shard is deleted - the delete, the
+        // retirement that frees its blocks and the waiting record must all reach the device within
+        // the bound after the delete, without flush()
+        let mut fu = Tape::fresh(mix(seed, 0xF011));
+        let full_then_delete = !slow_reader && !swept && !steady && !burst && !hot && fu.chance(1, 8);
+        let (sim, store, keys, clients) = if full_then_delete {
+            let n = 3 + fu.below(3) as usize;
+            let sizes: Vec<usize> = (0..n).map(|_| 1 + fu.below(3) as usize).collect();
+            let keys: Vec<Vec<u8>> = (0..=n).map(|i| format!("fk{i:02}").into_bytes()).collect();
+            let len_for = |blocks: usize, salt: usize| blocks * 4096 - 400 - salt % 150;
+            let mut ops: Vec<Op> = Vec::new();
+            for (key, b) in sizes.iter().enumerate() {
+                ops.push(Op::Insert { key, val: Val { len: len_for(*b, key), kind: ValKind::Plain }, ts: Ts::Auto, ttl: 0, bytes: false });
+            }
+            ops.push(Op::Advance { ns: 400_000_000 + fu.below(200) as u64 * 1_000_000 });
+            let victim = fu.below(n as u32) as usize;
+            ops.push(Op::Insert { key: n, val: Val { len: len_for(sizes[victim], 77), kind: ValKind::Plain }, ts: Ts::Auto, ttl: 0, bytes: false });
+            ops.push(Op::Advance { ns: 250_000_000 + fu.below(500) as u64 * 1_000_000 });
+            ops.push(Op::Delete { key: victim, ts: Ts::Auto });
+            (
+                SimConfig { shards: 1, workers: 1, ..sim },
+                StoreCfg { data_blocks: sizes.iter().sum::<usize>() as u64, ttl: false, ..store },
+                keys,
+                vec![ops],
+            )
+        } else {
+            (sim, store, keys, clients)
+        };
         // transient family (own tape): the first three record-write attempts of the run fail (the
         // flusher gives one batch up after three attempts), then the device is healthy again; what
         // was given up must be retried by the periodic trigger, without any further write and
         // without flush()
         let mut tr = Tape::fresh(mix(seed, 0x7A45));
-        let transient = burst_transient || (!slow_reader && !swept && !steady && !burst && !hot && tr.chance(1, 4));
+        let transient = burst_transient || (!slow_reader && !swept && !steady && !burst && !hot && !full_then_delete && tr.chance(1, 4));
         let mut sim = sim;
         if transient {
             sim.buggify.insert("record_write".into(), 1000);
@@ -246,6 +276,7 @@ impl Engine for LiveEngine {
         let mut knobs = BTreeMap::new();
         knobs.insert("transient".into(), transient as i64);
         knobs.insert("burst_transient".into(), burst_transient as i64);
+        knobs.insert("full_then_delete".into(), full_then_delete as i64);
         knobs.insert("swept".into(), swept as i64);
         knobs.insert("slow_reader".into(), slow_reader as i64);
         knobs.insert("steady".into(), (steady && !slow_reader && !swept) as i64);
@@ -281,6 +312,9 @@ impl Engine for LiveEngine {
         }
         if sc.knob("burst_transient", 0) == 1 {
             report.count("late_failure_burst_runs", 1);
+        }
+        if sc.knob("full_then_delete", 0) == 1 {
+            report.count("full_then_delete_runs", 1);
         }
         let outage_end = 0u64;
         report.count(&format!("cfg.shards{}_workers{}", store.verif_shard_counts().len(), store.verif_worker_count()), 1);
@@ -399,7 +433,9 @@ impl Engine for LiveEngine {
             sim.sleep(Duration::from_nanos(wait));
             let pending = store.verif_retirements_pending();
             let buffered: usize = store.verif_shard_counts().iter().sum();
-            if pending != Some(0) || buffered != 0 {
+            if cannot_fit(disk.durable_image().len(), &log) {
+                report.count("device_cannot_hold_final_state", 1);
+            } else if pending != Some(0) || buffered != 0 {
                 report.fail(
                     "retirement-not-bounded",
                     format!(
@@ -571,6 +607,18 @@ fn client(
     }
 }
 
+/// The final states of all keys need more blocks than the data area has: the device cannot hold
+/// them, an entry that stays buffered is then no violation of the bound (a scenario the minimiser
+/// produces by dropping deletes, never the generator).
+fn cannot_fit(image_len: usize, log: &[Change]) -> bool {
+    let mut last: BTreeMap<&Vec<u8>, &Option<Gen>> = BTreeMap::new();
+    for c in log {
+        last.insert(&c.key, &c.state);
+    }
+    let needed: u64 = last.iter().filter_map(|(k, s)| s.as_ref().map(|g| codec::extent_blocks(3, k.len(), g.value.len()))).sum();
+    needed > (image_len / codec::BLOCK) as u64 - codec::DATA_START
+}
+
 /// Every modification accepted at or before `cutoff` must be reflected in the durable image:
 /// per key the image holds the state of the last change <= cutoff or a later one.
 fn check_durable_upto(
@@ -583,6 +631,9 @@ fn check_durable_upto(
     pinned_keys: &[Vec<u8>],
 ) -> Result<(), (String, String)> {
     let image = disk.durable_image();
+    if cannot_fit(image.len(), log) {
+        return Ok(());
+    }
     let decoded = codec::decode_image(&image, DecodeOptions::default())
         .map_err(|why| ("image-rejected".to_string(), format!("durable image rejected by the independent reader: {why}")))?;
     let mut per_key: BTreeMap<&Vec<u8>, Vec<&Change>> = BTreeMap::new();
@@ -622,6 +673,9 @@ fn check_durable_upto(
 }
 
 fn check_recovers(sim: &Arc<Sim>, sc: &Scenario, disk: &Arc<crate::disk::SimDisk>, log: &[Change]) -> Result<(), (String, String)> {
+    if cannot_fit(disk.durable_image().len(), log) {
+        return Ok(());
+    }
     let mut env2 = Env::new(Arc::clone(sim), sc.store.clone(), sc.keys.clone(), "liverec");
     env2.install_image(disk.durable_image());
     feoxdb::verif::process_restart();
